@@ -1,6 +1,6 @@
 (* Attr.v — hand model of the queue attribute table (src/init.c:431-552), of the normalisation in
    _dispatch_lane_create_with_target (src/queue.c:2660) for a NULL / default target, and of what the getters
-   report.  Executable; tied to the code by an EXHAUSTIVE correspondence over all 6048 table entries. *)
+   report.  Executable; tied to the code by an EXHAUSTIVE correspondence over all table entries (ATTR_COUNT = 4032 on this build: Gen_qos, regenerated) and NULL. *)
 From Coq Require Import ZArith Bool List.
 From Verif Require Import Gen_consts Gen_qos.
 Import ListNotations.
